@@ -194,7 +194,7 @@ func runParamCase(c ParamCase) Outcome {
 
 func TestC20_Params(t *testing.T) {
 	RunProp(t, Prop[ParamCase]{
-		ID: "C20", Name: "params", Quick: 640, Thor: 20_000,
+		ID: "C20", Name: "params", Quick: 1280, Thor: 20_000,
 		Gen: genParamCase, Run: runParamCase,
 		Rule: "histories of 1-8 execution blocks each carrying 0-3 tax, 0-2 confirmation and 0-3 minimum-deposit requests with boundary-biased 64-bit values (0,1,999,1000,1001,9999,10000,10001,2^32,2^63,2^64-1, random), from generated genesis parameter sets; after every block Query/Params must satisfy the bounds and equal an apply-or-ignore model (last in-range value wins; the cap accompanying an out-of-range rate is unspecified), and 1-6 boundary-valued deposits are verified against the current parameters (accepted iff value >= minimum etc., amount+tax=value, tax<value, amount>0); non-trivial = a history with both an out-of-range and an in-range request for the same parameter",
 	})
